@@ -981,6 +981,17 @@ func (sc *serverConn) consumeRecvWindow(strm *Stream, fr *FrameHeader, n int) {
 		sc.writeWindowUpdate(strm.ID(), n)
 	}
 
+	sc.consumeConnRecvWindow(n)
+}
+
+// consumeConnRecvWindow is the connection half of consumeRecvWindow. DATA that
+// is refused or ignored has still been paid for out of the connection window,
+// and has to be handed back like any other (RFC 7540 6.9).
+func (sc *serverConn) consumeConnRecvWindow(n int) {
+	if n <= 0 {
+		return
+	}
+
 	sc.currentWindow -= int32(n)
 	if sc.currentWindow < sc.maxWindow/2 {
 		inc := sc.maxWindow - sc.currentWindow
@@ -1203,14 +1214,20 @@ func (sc *serverConn) handleFrame(strm *Stream, fr *FrameHeader) error {
 			return NewGoAwayError(ProtocolError, "stream didn't end the headers")
 		}
 
+		// DATA after the peer has ended the stream is an error of that stream
+		// only (RFC 7540 5.1, half-closed (remote)).
 		if strm.State() >= StreamStateHalfClosed {
-			return NewGoAwayError(StreamClosedError, "stream closed")
+			sc.consumeConnRecvWindow(fr.Len())
+
+			return NewResetStreamError(StreamClosedError, "stream closed")
 		}
 
 		data := fr.Body().(*Data).Data()
 		strm.recvBody += len(data)
 
 		if sc.maxRequestBodySize > 0 && strm.recvBody > sc.maxRequestBodySize {
+			sc.consumeConnRecvWindow(fr.Len())
+
 			return NewResetStreamError(EnhanceYourCalm, "request body is too large")
 		}
 
@@ -1226,17 +1243,20 @@ func (sc *serverConn) handleFrame(strm *Stream, fr *FrameHeader) error {
 			return NewGoAwayError(ProtocolError, "frame priority on an open stream")
 		}
 
+		// https://httpwg.org/specs/rfc7540.html#rfc.section.5.3.1
 		if priorityFrame, ok := fr.Body().(*Priority); ok && priorityFrame.Stream() == strm.ID() {
-			return NewGoAwayError(ProtocolError, "stream that depends on itself")
+			return NewResetStreamError(ProtocolError, "stream that depends on itself")
 		}
 	case FrameWindowUpdate:
 		if strm.State() == StreamStateIdle {
 			return NewGoAwayError(ProtocolError, "window update on idle stream")
 		}
 
+		// On a stream this is a stream error; only on the connection is it a
+		// connection error (RFC 7540 6.9).
 		win := int64(fr.Body().(*WindowUpdate).Increment())
 		if win == 0 {
-			return NewGoAwayError(ProtocolError, "window increment of 0")
+			return NewResetStreamError(ProtocolError, "window increment of 0")
 		}
 
 		// 2^31-1 itself is the largest legal window (RFC 7540 6.9.1).
@@ -1257,8 +1277,10 @@ func (sc *serverConn) handleHeaderFrame(strm *Stream, fr *FrameHeader) error {
 	// request has to a place for them.
 	// https://httpwg.org/specs/rfc7540.html#rfc.section.8.1
 	if strm.headersFinished {
+		// A malformed request (RFC 7540 8.1), which costs the peer this stream
+		// and nothing else. Its header block is decoded all the same.
 		if !fr.Flags().Has(FlagEndStream) {
-			return NewGoAwayError(ProtocolError, "stream not open")
+			sc.malformedField(strm, NewResetStreamError(ProtocolError, "second header block without END_STREAM"))
 		}
 
 		// Like any header block the trailer may be continued: END_HEADERS can
@@ -1267,8 +1289,9 @@ func (sc *serverConn) handleHeaderFrame(strm *Stream, fr *FrameHeader) error {
 		strm.headersFinished = fr.Flags().Has(FlagEndHeaders)
 	}
 
+	// https://httpwg.org/specs/rfc7540.html#rfc.section.5.3.1
 	if headerFrame, ok := fr.Body().(*Headers); ok && headerFrame.Stream() == strm.ID() {
-		return NewGoAwayError(ProtocolError, "stream that depends on itself")
+		sc.malformedField(strm, NewResetStreamError(ProtocolError, "stream that depends on itself"))
 	}
 
 	// Only a HEADERS or PUSH_PROMISE frame opens a header block, and only when
@@ -1487,6 +1510,16 @@ func (sc *serverConn) verifyState(strm *Stream, fr *FrameHeader) error {
 	case StreamStateHalfClosed:
 		if strm.continuingHeaders(fr) {
 			return nil
+		}
+
+		// DATA after END_STREAM costs the peer the stream, not the connection
+		// (RFC 7540 5.1, half-closed (remote)). A header block would have to be
+		// decoded before the stream could be reset, so that stays a
+		// connection error.
+		if fr.Type() == FrameData {
+			sc.consumeConnRecvWindow(fr.Len())
+
+			return NewResetStreamError(StreamClosedError, "DATA on half-closed stream")
 		}
 
 		if fr.Type() != FrameWindowUpdate && fr.Type() != FramePriority && fr.Type() != FrameResetStream {
